@@ -3,6 +3,7 @@
 mod alloc;
 mod conn;
 mod conn_gen;
+mod codec;
 mod frame;
 mod rng;
 mod tables;
@@ -15,6 +16,7 @@ fn main() {
     let args: Vec<String> = std::env::args().collect();
     if args.len() < 2 {
         eprintln!("usage: harness <alloc|frame|tables> <quick|thorough> <seed> | harness replay <mode> <file>");
+        eprintln!("usage: harness <alloc|frame|codec> <quick|thorough> <seed> | harness replay <mode> <file>");
         std::process::exit(2);
     }
     let stdout = std::io::stdout();
@@ -26,6 +28,7 @@ fn main() {
         "frame" => frame::generate(tier, seed, &mut out),
         "conn" => conn_gen::generate(tier, seed, &args[4.min(args.len())..], &mut out),
         "tables" => tables::generate(tier, seed, &mut out),
+        "codec" => codec::generate(tier, seed, &mut out),
         "replay" => {
             let text = std::fs::read_to_string(&args[3]).expect("trace file");
             match args[2].as_str() {
@@ -33,6 +36,7 @@ fn main() {
                 "frame" => frame::replay(&text, &mut out),
                 "conn" => conn::replay(&text, &mut out),
                 "tables" => tables::replay(&text, &mut out),
+                "codec" => codec::replay(&text, &mut out),
                 m => {
                     eprintln!("unknown replay mode {m}");
                     std::process::exit(2);
